@@ -10,8 +10,8 @@ theorem rk23_stages_calls (f : Rhs α n) (y k1 : Vec α n) (x h : α) :
     (Gen.Rk23.stages (f := f) (y := y) (h := h) (k1 := k1) (x := x)).calls.size = 3 := by simp [Gen.Rk23.stages]
 theorem rk4_stages_calls (f : Rhs α n) (y k1 : Vec α n) (x h : α) :
     (Gen.Rk4.stages (f := f) (y := y) (h := h) (k1 := k1) (x := x)).calls.size = 3 := by simp [Gen.Rk4.stages]
-theorem rk4_update_calls (f : Rhs α n) (y k1 k2 k3 k4 : Vec α n) (x h : α) :
-    (Gen.Rk4.update (f := f) (h := h) (x := x) (k1 := k1) (k2 := k2) (k3 := k3) (k4 := k4) (y := y)).calls.size = 1 := by
+theorem rk4_update_calls (f : Rhs α n) (y k1 k2 k3 k4 : Vec α n) (x h : α) (l : Bool) (e : α) :
+    (Gen.Rk4.update (f := f) (last := l) (xend := e) (h := h) (x := x) (k1 := k1) (k2 := k2) (k3 := k3) (k4 := k4) (y := y)).calls.size = 1 := by
   simp [Gen.Rk4.update]
 
 /-- counted ∧ chained ∧ within budget -/
@@ -25,19 +25,19 @@ theorem rk23Accepted_inv {σ : Type} (P : R23Params α n) (f : Rhs α n) (ob : O
       (rk23Accepted P f ob s h last T) := by
   unfold rk23Accepted
   dsimp only
-  have hC := Meter.counted_cb (Meter.counted_incAccepted (Meter.counted_incTotal hT)) s.x (s.x + h) T.o.yt
+  have hC := Meter.counted_cb (Meter.counted_incAccepted (Meter.counted_incTotal hT)) s.x (landX last P.xend s.x h) T.o.yt
     (sampleInterp (if P.dense then some (fun xi => Gen.Rk23.interpolate (xi := xi) (xold := s.x) (h := h)
         (cont0 := (Gen.Rk23.dense (ye := s.y) (k1 := s.k1) (k2 := T.o.k2) (k3 := T.o.k3) (k4 := T.o.k4)).cont0)
         (cont1 := (Gen.Rk23.dense (ye := s.y) (k1 := s.k1) (k2 := T.o.k2) (k3 := T.o.k3) (k4 := T.o.k4)).cont1)
         (cont2 := (Gen.Rk23.dense (ye := s.y) (k1 := s.k1) (k2 := T.o.k2) (k3 := T.o.k3) (k4 := T.o.k4)).cont2)
         (cont3 := (Gen.Rk23.dense (ye := s.y) (k1 := s.k1) (k2 := T.o.k2) (k3 := T.o.k3) (k4 := T.o.k4)).cont3)) else none)
-      s.x (s.x + h) P.quarter P.half P.threeq)
+      s.x (landX last P.xend s.x h) P.quarter P.half P.threeq)
   split
-  · exact ⟨hC, by simpa using ChainTo.step hc (s.x + h), by simp; omega⟩
+  · exact ⟨hC, by simpa using ChainTo.step hc (landX last P.xend s.x h), by simp; omega⟩
   · rename_i obs' y' k' m' heq
     have hm := afterCb_go_meter f ob _ _ _ _ _ _ _ obs' y' k' m' heq
     have h1 := afterCb_counted f ob _ _ _ _ _ _ _ hC obs' y' k' m' heq
-    have h2 : ChainTo m'.pairs (s.x + h) := by rw [hm.1]; simpa using ChainTo.step hc (s.x + h)
+    have h2 : ChainTo m'.pairs (landX last P.xend s.x h) := by rw [hm.1]; simpa using ChainTo.step hc (landX last P.xend s.x h)
     have h3 : m'.cnt.total ≤ P.nmax := by rw [hm.2]; simp; omega
     split <;> exact ⟨h1, h2, h3⟩
 
@@ -126,20 +126,20 @@ theorem rk4Iter_inv {σ : Type} (P : R4Params α) (f : Rhs α n) (ob : Obs σ α
       (Gen.Rk4.stages (f := fun j => f (s.m.ncalls + j)) (y := s.y) (h := (rk4Adjust P s).1) (k1 := s.k1) (x := s.x)).k2
       (Gen.Rk4.stages (f := fun j => f (s.m.ncalls + j)) (y := s.y) (h := (rk4Adjust P s).1) (k1 := s.k1) (x := s.x)).k3
       (Gen.Rk4.stages (f := fun j => f (s.m.ncalls + j)) (y := s.y) (h := (rk4Adjust P s).1) (k1 := s.k1) (x := s.x)).k4
-      s.x (rk4Adjust P s).1)
+      s.x (rk4Adjust P s).1 (rk4Adjust P s).2 P.xend)
     have hux : ∀ (ff : Rhs α n) (k2 k3 k4 : Vec α n),
-        (Gen.Rk4.update (f := ff) (h := (rk4Adjust P s).1) (x := s.x) (k1 := s.k1) (k2 := k2) (k3 := k3) (k4 := k4) (y := s.y)).x
-          = s.x + (rk4Adjust P s).1 := by
-      intro ff k2 k3 k4; simp [Gen.Rk4.update]
+        (Gen.Rk4.update (f := ff) (last := (rk4Adjust P s).2) (xend := P.xend) (h := (rk4Adjust P s).1) (x := s.x) (k1 := s.k1) (k2 := k2) (k3 := k3) (k4 := k4) (y := s.y)).x
+          = landX (rk4Adjust P s).2 P.xend s.x (rk4Adjust P s).1 := by
+      intro ff k2 k3 k4; simp [Gen.Rk4.update, landX]
     rw [hux]
-    have hC := Meter.counted_cb (Meter.counted_incAccepted (Meter.counted_incTotal h2)) s.x (s.x + (rk4Adjust P s).1)
+    have hC := Meter.counted_cb (Meter.counted_incAccepted (Meter.counted_incTotal h2)) s.x (landX (rk4Adjust P s).2 P.xend s.x (rk4Adjust P s).1)
     split
-    · exact ⟨hC _ _, by simpa using ChainTo.step hs.2.1 (s.x + (rk4Adjust P s).1), by simp; omega⟩
+    · exact ⟨hC _ _, by simpa using ChainTo.step hs.2.1 (landX (rk4Adjust P s).2 P.xend s.x (rk4Adjust P s).1), by simp; omega⟩
     · rename_i obs' y' k' m' heq
       have hm := afterCb_go_meter f ob _ _ _ _ _ _ _ obs' y' k' m' heq
       have hc1 := afterCb_counted f ob _ _ _ _ _ _ _ (hC _ _) obs' y' k' m' heq
-      have hc2 : ChainTo m'.pairs (s.x + (rk4Adjust P s).1) := by
-        rw [hm.1]; simpa using ChainTo.step hs.2.1 (s.x + (rk4Adjust P s).1)
+      have hc2 : ChainTo m'.pairs (landX (rk4Adjust P s).2 P.xend s.x (rk4Adjust P s).1) := by
+        rw [hm.1]; simpa using ChainTo.step hs.2.1 (landX (rk4Adjust P s).2 P.xend s.x (rk4Adjust P s).1)
       have hc3 : m'.cnt.total ≤ P.nmax := by rw [hm.2]; simp; omega
       split <;> exact ⟨hc1, hc2, hc3⟩
 
